@@ -27,7 +27,7 @@ CHECKS = {
 "C17": dict(text="Seeded exploration of the NumPy global random stream (seeded draws, boundary uniforms 0 and 1-2^-53 injected at the seam) through pipelines of subsample/downsample/powerlaw_sample/powerlaw_mle_alpha with conservation/bound invariants on every draw, plus uniformity tests against the exact hypergeometric law with a fixed total false-alarm bound < 1e-8 (Hoeffding on small fixed configurations, Fisher-combined exact tails on small and deep-repertoire configurations).",
             note="Trusted: NumPy legacy global generator as the seam; Hoeffding bound and scipy.stats.hypergeom log-tails for the uniformity statistics; own zeta-sum likelihood for the 'exact' fit. The powerlaw_mle_alpha closed-form clauses are deterministic and only evaluated along the way.",
             tech="deterministic simulation of the RNG seam: seeded/boundary draws + invariants + exact-distribution uniformity bound", ref="3.3"),
-"C20": dict(text="Seeded exploration of public-API call histories over a shared heap of caller-owned objects with injected faults (natural raises, callback raise, pool fork failure, packaged-file read error, asynchronous interrupt at an arbitrary pyrepseq line, pool schedules); after every call argument snapshots are compared and the canonical outcome is compared with the same call executed alone in a pristine process.",
+"C20": dict(text="Seeded exploration of public-API call histories over a shared heap of caller-owned objects with injected faults (natural raises, callback raise, pool fork failure, packaged-file read error, asynchronous interrupt at an arbitrary pyrepseq line, pool schedules); the simulated caller also edits its own objects between calls, seeds the global random generators ahead of deterministic calls and keeps other figures open; templates with fixed arguments plus random-argument templates in sibling clusters drawn per batch seed; every job runs in a private working / home / temp directory; after every call argument snapshots are compared and the canonical outcome is compared with the same call executed alone in a pristine process.",
             note="Trusted: canonicalisation of results (floats rel. 1e-9, figures reduced to artist-data fingerprints); fork-from-pristine-image equals fresh interpreter; igraph-backed community variants asserted only with both generators seeded; tcrdist/pwseqdist/mafft absent (those calls only appear as calls that raise).",
             tech="deterministic simulation: seeded call histories + fault injection vs pristine-process oracle and argument snapshots", ref="3.4"),
 }
@@ -38,7 +38,7 @@ m = {
  "setup_cmd": "/venv/bin/python -c \"import sys; sys.path.insert(0, '/repo'); import pyrepseq, numpy, pandas, scipy, rapidfuzz; print('setup ok')\"",
  "hooks": {
   "guard": "PYREPSEQ_VERIF",
-  "enable": "no source hooks are needed: every seam is taken from outside (multiprocessing.pool.Pool rebinding, np.random seeding/wrapping, sys.settrace, callback arguments, pandas.read_csv wrapping); vcheck exports PYREPSEQ_VERIF=1 for its own processes only, /repo never reads it",
+  "enable": "no source hooks are needed: every seam is taken from outside (multiprocessing.pool.Pool rebinding, threading.Event.wait / time.sleep while a pool is alive, np.random seeding/wrapping, sys.settrace, callback arguments, pandas.read_csv wrapping, a private cwd/HOME/TMPDIR per job with an audit hook for writes outside it); vcheck exports PYREPSEQ_VERIF=1 for its own processes only, /repo never reads it",
   "baseline_off_cmd": "cd /repo && /venv/bin/python -m pytest -ra -q -p no:cacheprovider --timeout=900 --continue-on-collection-errors",
   "source_commits": [],
   "add_only": True
